@@ -181,6 +181,17 @@ func (c20ObjTool) Disasm(string, uint64, uint64, bool) ([]plugin.Inst, error) {
 	return out, nil
 }
 
+// c20NoObj opens nothing (so that the first source on the command line is not taken for the
+// name of an executable, as it would be with an object tool that opens everything).
+type c20NoObj struct{}
+
+func (c20NoObj) Open(string, uint64, uint64, uint64, string) (plugin.ObjFile, error) {
+	return nil, fmt.Errorf("c20NoObj: no object files")
+}
+func (c20NoObj) Disasm(string, uint64, uint64, bool) ([]plugin.Inst, error) {
+	return nil, fmt.Errorf("c20NoObj: no object files")
+}
+
 // c20WebProfile: five functions in one fake source file, six stacks, two sample types.
 func c20WebProfile(src string) *profile.Profile {
 	var funcs []*profile.Function
